@@ -38,6 +38,12 @@ func runC04(r *run) {
 			bad := append(gctx{}, a...)
 			bad = append(bad, ctxEntry{"not an identifier", gInt(1)})
 			hist := []gctx{a, b, bad, a, b}
+			switch i % 3 {
+			case 1: // the very first execution is rejected by the context checks
+				hist = []gctx{bad, a, b, a}
+			case 2:
+				hist = []gctx{bad, bad, a, a, bad, b}
+			}
 			parts := make([]string, len(hist))
 			for j, h := range hist {
 				parts[j] = h.descr()
